@@ -18,6 +18,18 @@ def tf_rows(F):
         rows[b.path[len(TPFX):]] = {"calls": calls, "casts": casts}
     return rows
 
+
+# value-preserving std conversions between primitive types (`From` exists only where no value is lost) and exact `as` widenings: a row that differs from
+# its reviewed form only by such a conversion of a parameter (bool as 0/1 written `i64::from(b)` instead of `if b { 1 } else { 0 }`) is the same row
+_EXACT_FROM = re.compile(r"^From<(i64|u64|f64|i128|u128|usize|isize|f32|i32|u32)<-(bool|u8|u16|u32|i8|i16|i32|f32)>::from\(p\d+\)$")
+_EXACT_CAST = {("bool", "i64"), ("bool", "u64"), ("bool", "u8"), ("bool", "i32"), ("u8", "f64"), ("u8", "i64"), ("u8", "u64"), ("u32", "u64"), ("u32", "i64"), ("i32", "i64"), ("u32", "f64"), ("i32", "f64")}
+
+
+def norm_row(row):
+    calls = [c for c in row.get("calls", []) if not _EXACT_FROM.match(c)]
+    casts = [c for c in row.get("casts", []) if tuple(c.split("->")) not in _EXACT_CAST]
+    return {"calls": calls, "casts": casts}
+
 # casts that are the documented conversion itself
 CONV_OK = {("i64", "f64"): "int -> nearest double", ("u64", "f64"): "uint -> nearest double",
            ("f64", "i64"): "double -> int truncates toward zero, saturating (Rust `as` semantics = the documented rule)",
@@ -123,7 +135,7 @@ def run(chk, tier):
         if name not in rows:
             chk.bad("R14.6", "row|" + name, "conversion overload %s no longer exists: the accepted source types changed" % name, "rscel/src/context/type_funcs")
             continue
-        if rows[name] == frozen[name]:
+        if norm_row(rows[name]) == norm_row(frozen[name]):
             chk.ok("R14.6", "row|" + name, rows[name]["calls"][:2] or "identity / cast only")
         else:
             chk.bad("R14.6", "row|" + name, "%s no longer converts with its documented primitive: now %s, reviewed %s" % (name, rows[name], frozen[name]), "rscel/src/context/type_funcs")
